@@ -36,7 +36,7 @@ def worker(job, extra):
     return res
 
 
-BAD = {'neg': -1.0, 'nan': float('nan'), 'str': 'x', 'floatbatch': 1.5, 'negbatch': -1, 'none': None}
+BAD = {'neg': -1.0, 'nan': float('nan'), 'str': 'x', 'floatbatch': 1.5, 'negbatch': -1, 'none': None, 'combneg': 'COMBNEG'}
 
 
 def fault_run(job, spec, cap, wall):
@@ -131,7 +131,7 @@ def main(prop, tier, vseed, replay=None):
             nf = 150 if tier == 'quick' else 3000
             for i in range(nf):
                 kind = rr.choice(['arr', 'srv', 'bat', 'ren', 'cct'])
-                bad = rr.choice(['floatbatch', 'negbatch', 'str', 'nan']) if kind == 'bat' else rr.choice(['neg', 'nan', 'str', 'none'])
+                bad = rr.choice(['floatbatch', 'negbatch', 'str', 'nan']) if kind == 'bat' else rr.choice(['neg', 'nan', 'str', 'none', 'combneg'])
                 prof = {'arr': 'c10', 'srv': 'c10', 'bat': 'c10', 'ren': 'c13', 'cct': 'c08'}[kind]
                 jobs.append({'profile': prof, 'seed': vseed * 1000003 + 700000 + i, 'fault': (kind, rr.randint(1, 12), bad)})
     runs, cap, wall, ties = profiles.BUDGET[tier]
